@@ -7,8 +7,9 @@
 (* key as found at the pinned commit: the bare concatenation of the array  *)
 (* bytes and str() of everything else (the digest is assumed injective on  *)
 (* that byte string); TRUE adds dtype and shape per array, which also      *)
-(* delimits the arguments.  Atoms of a key are integers: bytes 0..255,     *)
-(* other tokens >= 1000.                                                   *)
+(* delimits the arguments, and a separator after every non-array argument  *)
+(* (str() of a non-array argument is a sequence of character atoms).       *)
+(* Atoms of a key are integers: bytes 0..255, other tokens >= 1000.        *)
 (***************************************************************************)
 EXTENDS CacheSpec
 
@@ -30,7 +31,7 @@ Concat(ss) == IF ss = <<>> THEN <<>> ELSE Head(ss) \o Concat(Tail(ss))
 ArgKey(x) ==
     IF x.kind = "arr"
     THEN (IF KeyTyped THEN <<x.dtype>> \o x.shape \o <<1999>> ELSE <<>>) \o x.bytes
-    ELSE <<x.str>>
+    ELSE x.str \o (IF KeyTyped THEN <<1998>> ELSE <<>>)   \* str() + separator
 
 FuncTok(f) == 3000 + f
 Key(f, p) == Concat([i \in 1..Len(Args(p)) |-> ArgKey(Args(p)[i])]) \o <<FuncTok(f)>>
